@@ -54,20 +54,27 @@ def r1_name_tables(ctx) -> None:
     else:
         r.violation("C10.R1", CORR, f"enum {base} vs literals {lits}", f"members without literal: {sorted(set(base) - set(lits))}")
     cr = prog.func(B + ".convert_correlation_rule")
-    table: dict[str, str] = {}
-    for n in walk_no_nested(cr.node):
-        if isinstance(n, ast.Dict) and n.keys and all(isinstance(k, ast.Attribute) and unparse(k.value) == "SigmaCorrelationType" for k in n.keys):
-            for k, v in zip(n.keys, n.values):
-                table[k.attr] = unparse(v).replace("self.", "")
-        if isinstance(n, ast.Assign) and isinstance(n.targets[0], ast.Subscript) and unparse(n.targets[0].value) == "correlation_methods":
-            key = unparse(n.targets[0].slice).split(".")[-1]
-            table.setdefault(key + ("*" if key in table else ""), unparse(n.value).replace("self.", ""))
-            table[key + ":" + unparse(n.value).replace("self.", "")] = unparse(n.value).replace("self.", "")
+    # the dispatch of convert_correlation_rule, interpreted (sa.tabulate, Proxy) for every enum member with a plain and an
+    # extended condition: which per-type method is called
+    from .standins import run_per_rule_converter
+    table: dict[str, list[str]] = {}
     for m in members:
-        meths = [v for k, v in table.items() if k == m or k.startswith(m + ":")]
+        for ext in (False, True):
+            o = run_per_rule_converter(ctx, "convert_correlation_rule", output=True, rule_type=m, extended_condition=ext)
+            called = [t.split(":", 1)[1] for t in o.trace if isinstance(t, str) and t.startswith("dispatch:")]
+            if o.raised is None and len(called) == 1:
+                table.setdefault(m, [])
+                if called[0] not in table[m]:
+                    table[m].append(called[0])
+                want_name = f"convert_correlation_{'extended_' if ext and m in ('TEMPORAL', 'TEMPORAL_ORDERED') else ''}{m.lower()}_rule"
+                if called[0] != want_name:
+                    r.violation("C10.R1", cr.qual, f"{m} ({'extended' if ext else 'plain'} condition) → {called[0]}", f"expected {want_name}: the query of another correlation type (or condition form) is emitted", cr.loc)
+            elif o.raised is not None:
+                r.violation("C10.R1", cr.qual, f"{m}: no dispatch entry ({'extended' if ext else 'plain'} condition: {o.raised})", f"correlation type {m} has no conversion method: such rules fail with NotImplementedError", cr.loc)
+    for m in members:
+        meths = table.get(m, [])
         loc = cr.loc
         if not meths:
-            r.violation("C10.R1", cr.qual, f"{m}: no dispatch entry", f"correlation type {m} has no conversion method: such rules fail with NotImplementedError", loc)
             continue
         for meth in meths:
             f = prog.lookup_method(TQ, meth)
@@ -95,59 +102,66 @@ def r1_name_tables(ctx) -> None:
 def r2_embedding(ctx) -> None:
     r, prog = ctx.r, ctx.prog
     r.rule("C10.R2", "every query of every referenced rule is embedded: search and typing iterate referenced_rules (outer) × get_conversion_result() (inner) and tag with name or id; the single-rule shortcut requires exactly one referenced rule with exactly one query")
-    for fn in ("convert_correlation_search", "convert_correlation_typing"):
-        f = prog.func(f"{TQ}.{fn}")
-        gens = [n for n in walk_no_nested(f.node) if isinstance(n, ast.GeneratorExp) and len(n.generators) == 2]
-        ok_ = False
-        for g in gens:
-            g0, g1 = g.generators
-            if unparse(g0.iter) == "rule.referenced_rules" and unparse(g1.iter) == f"{unparse(g0.target)}.rule.get_conversion_result()" and not g0.ifs and not g1.ifs:
-                kws = {k.arg: unparse(k.value) for k in g.elt.keywords} if isinstance(g.elt, ast.Call) else {}
-                rv = unparse(g0.target)
-                if kws.get("ruleid") == f"{rv}.rule.name or {rv}.rule.id" and unparse(g1.target) in (kws.get("query") or ""):
-                    ok_ = True
-                    r.ok("C10.R2", f.qual, f"for {rv} in rule.referenced_rules for query in {rv}.rule.get_conversion_result(): ruleid = name or id", f"{f.module.relpath}:{g.lineno}")
-                else:
-                    r.violation("C10.R2", f.qual, short(g.elt, 160), "embedded query is not tagged with `name or id` of its rule or does not carry the query", f"{f.module.relpath}:{g.lineno}")
-                    ok_ = True
-        if not ok_:
-            r.violation("C10.R2", f.qual, "for rule_reference in rule.referenced_rules for query in rule_reference.rule.get_conversion_result()", "the multi-rule branch does not embed every query of every referenced rule in reference order", f.loc)
-    f = prog.func(TQ + ".convert_correlation_search")
-    single = [c for c in walk_no_nested(f.node) if isinstance(c, ast.Call) and call_name(c) == "self.correlation_search_single_rule_expression.format"]
-    if len(single) == 1:
-        gs = [(g.replace(" ", ""), p) for g, p in atomic_guards(guards_at(prog, f, single[0]))]
-        loc = f"{f.module.relpath}:{single[0].lineno}"
-        one_rule = ("len(rule.referenced_rules)==1", True) in gs
-        one_query = any(g.startswith("len((queries:=") and g.endswith("==1") and p for g, p in gs)
-        if one_rule and one_query:
-            r.ok("C10.R2", f.qual, "single-rule shortcut only for exactly one referenced rule with exactly one query", loc)
-        else:
-            r.violation("C10.R2", f.qual, "single-rule shortcut guards",
-                        f"the shortcut embeds queries[0] only; it must require len(referenced_rules) == 1 and len(queries) == 1 — otherwise further conditions of the referenced rule are dropped silently (facts: {[g[:70] for g, p in gs if p]})", loc)
-        kws = {k.arg: unparse(k.value) for k in single[0].keywords if k.arg}
-        # sibling agreement: the single-rule template gets what the multi-rule query template gets for the same rule
-        multi = next((g.elt for g in walk_no_nested(f.node) if isinstance(g, ast.GeneratorExp) and len(g.generators) == 2 and isinstance(g.elt, ast.Call)), None)
-        mk = {k.arg: unparse(k.value) for k in multi.keywords if k.arg} if multi is not None else {}
-        ref = next((unparse(n.target) for n in walk_no_nested(f.node) if isinstance(n, ast.NamedExpr) and unparse(n.value) == "rule.referenced_rules[0]"), "rule_reference")
-        mref = unparse(next(g for g in walk_no_nested(f.node) if isinstance(g, ast.GeneratorExp) and len(g.generators) == 2).generators[0].target) if multi is not None else ref
-        problems = []
-        if kws.get("query") != "queries[0]":
-            problems.append(f"query={kws.get('query')} (expected queries[0])")
-        for k in ("rule", "ruleid", "normalization"):
-            want = mk.get(k, "").replace(mref, ref) if mk.get(k) else None
-            if want is not None and kws.get(k, "").replace(" ", "") != want.replace(" ", ""):
-                problems.append(f"{k}={kws.get(k)} but the multi-rule query template gets {k}={want}: the documented placeholders {{rule}} (the referred rule) and {{ruleid}} (its name or id) are missing or another object, so a backend whose single-rule template tags the query fails with KeyError/AttributeError or tags it differently")
-        if not problems:
-            r.ok("C10.R2", f.qual, "shortcut embeds the one query of the one rule with the same rule/ruleid/normalization arguments as the multi-rule query template", loc)
-        else:
-            r.violation("C10.R2", f.qual, short(single[0], 120), "; ".join(problems), loc)
+    # search phase, typing phase and the referenced-rule list interpreted (sa.tabulate, Proxy) on stand-in rules: two referenced
+    # rules with two and one queries (one rule without name), and the single-rule case
+    import types as _types
+    from ..tabulate import Proxy, call_method, Raised
+
+    def ref_(name, rid, queries):
+        rule_ = _types.SimpleNamespace(name=name, id=rid, get_conversion_result=lambda: list(queries))
+        return _types.SimpleNamespace(rule=rule_, reference=rid)  # referred to by id, also when the rule has a name
+
+    def backend(**over):
+        attrs = {"correlation_search_single_rule_expression": "SINGLE[{ruleid}|{query}|{normalization}]",
+                 "correlation_search_multi_rule_expression": "MULTI({queries})", "correlation_search_multi_rule_query_expression": "[{ruleid}|{query}|{normalization}]",
+                 "correlation_search_multi_rule_query_expression_joiner": " + ", "convert_correlation_search_multi_rule_query_postprocess": lambda q: f"pp({q})",
+                 "convert_correlation_search_field_normalization_expression": lambda aliases, rr_: f"norm:{rr_.rule.name or rr_.rule.id}",
+                 "typing_expression": "TYPING({queries})", "typing_rule_query_expression": "[{ruleid}|{query}]", "typing_rule_query_expression_joiner": " ; ",
+                 "convert_correlation_typing_query_postprocess": lambda q: f"tp({q})",
+                 "referenced_rules_expression": {"m": "<{ruleid}>"}, "referenced_rules_expression_joiner": {"m": ","}}
+        attrs.update(over)
+        return Proxy(prog, TQ, {}, attrs, interp_kwargs={"max_steps": 8000, "behaviours": (NotImplementedError,)})
+
+    def run(meth, me, *args):
+        try:
+            return call_method(prog, TQ, meth, me, {}, *args, interp_kwargs={"max_steps": 8000, "behaviours": (NotImplementedError,)})
+        except Raised as ex:
+            return f"<raises {ex}>"
+
+    two = _types.SimpleNamespace(referenced_rules=[ref_("ra", "id-a", ["qa1", "qa2"]), ref_(None, "id-b", ["qb1"])], aliases=[])
+    one_one = _types.SimpleNamespace(referenced_rules=[ref_("ra", "id-a", ["qa1"])], aliases=[])
+    one_two = _types.SimpleNamespace(referenced_rules=[ref_("ra", "id-a", ["qa1", "qa2"])], aliases=[])
+    fs = prog.func(TQ + ".convert_correlation_search")
+    ft = prog.func(TQ + ".convert_correlation_typing")
+    got = {"multi": run("convert_correlation_search", backend(), two), "single": run("convert_correlation_search", backend(), one_one),
+           "one rule, two queries": run("convert_correlation_search", backend(), one_two),
+           "single without single-rule template": run("convert_correlation_search", backend(correlation_search_single_rule_expression=None), one_one),
+           "multi without multi-rule templates": run("convert_correlation_search", backend(correlation_search_multi_rule_expression=None), two)}
+    want = {"multi": "MULTI([ra|pp(qa1)|norm:ra] + [ra|pp(qa2)|norm:ra] + [id-b|pp(qb1)|norm:id-b])", "single": "SINGLE[ra|qa1|norm:ra]",
+            "one rule, two queries": "MULTI([ra|pp(qa1)|norm:ra] + [ra|pp(qa2)|norm:ra])",
+            "single without single-rule template": "MULTI([ra|pp(qa1)|norm:ra])"}
+    bad = [f"{k}: {got[k]!r} instead of {want[k]!r}" for k in want if got[k] != want[k]]
+    if "NotImplementedError" not in str(got["multi without multi-rule templates"]):
+        bad.append(f"multi-rule search on a backend without the templates: {got['multi without multi-rule templates']!r} instead of NotImplementedError")
+    if not bad:
+        r.ok("C10.R2", fs.qual, "search phase: every query of every referenced rule is embedded in reference order, tagged with name or id, with its normalisation; the single-rule shortcut only for exactly one referenced rule with exactly one query and with the same arguments (interpreted)", fs.loc)
+        r.ok("C10.R2", fs.qual, "single-rule shortcut only for exactly one referenced rule with exactly one query", fs.loc)
     else:
-        r.violation("C10.R2", f.qual, "single-rule shortcut", "not found", f.loc)
+        r.violation("C10.R2", fs.qual, f"search phase: {bad[0]}",
+                    f"{len(bad)} interpreted cases deviate: the multi-rule branch must embed every query of every referenced rule in reference order tagged with `name or id`; the shortcut embeds queries[0] only and must require len(referenced_rules) == 1 and len(queries) == 1 — otherwise further conditions of the referenced rule are dropped silently; the single-rule template gets the same rule/ruleid/normalization arguments as the multi-rule query template", fs.loc)
+    gt = run("convert_correlation_typing", backend(), two)
+    gt0 = run("convert_correlation_typing", backend(typing_expression=None), two)
+    if gt == "TYPING([ra|tp(qa1)] ; [ra|tp(qa2)] ; [id-b|tp(qb1)])" and gt0 == "":
+        r.ok("C10.R2", ft.qual, "typing phase: every query of every referenced rule, in reference order, tagged with name or id; no typing template → empty text (interpreted)", ft.loc)
+    else:
+        r.violation("C10.R2", ft.qual, f"typing phase: {gt!r} (without template: {gt0!r})", "the typing phase does not embed every query of every referenced rule in reference order tagged with `name or id`", ft.loc)
     cr = prog.func(TQ + ".convert_referenced_rules")
-    if "ruleid=rule_reference.rule.name or rule_reference.rule.id" in unparse(cr.node) and "for rule_reference in referenced_rules" in unparse(cr.node):
+    gr = run("convert_referenced_rules", backend(), two.referenced_rules, "m")
+    gr0 = run("convert_referenced_rules", backend(referenced_rules_expression=None), two.referenced_rules, "m")
+    if gr == "<ra>,<id-b>" and gr0 is None:
         r.ok("C10.R2", cr.qual, "referenced rule list rendered in reference order with name or id", cr.loc)
     else:
-        r.violation("C10.R2", cr.qual, "convert_referenced_rules", "referenced rules are not rendered in order with `name or id`", cr.loc)
+        r.violation("C10.R2", cr.qual, f"convert_referenced_rules: {gr!r}", "referenced rules are not rendered in order with `name or id`", cr.loc)
     # which rules are embedded, and in which order: the explicit rules list wins, the condition text is only the fallback
     rr = prog.func("sigma.correlations.SigmaCorrelationRule.resolve_rule_references")
     from .c09 import correlation_resolution_table
@@ -162,7 +176,7 @@ def r2_embedding(ctx) -> None:
         r.ok("C10.R2", rr.qual, "rule names from the extended condition only when no rules list is given; none otherwise", rr.loc)
     else:
         r.violation("C10.R2", rr.qual, f"references without a rules list: {from_cond[0]}", "without a rules list the references are those the extended condition names (none for a plain condition)", rr.loc)
-    r.floor("C10.R2", 7)
+    r.floor("C10.R2", 6)
 
 
 def r3_timespan(ctx) -> None:
